@@ -105,7 +105,7 @@ func judgeDefinedError(c *gen.Case, cfg sim.Config, r *ref.Result) error {
 }
 
 func profileByName(n string) gen.Profile {
-	for _, p := range []gen.Profile{gen.REG, gen.MEM, gen.SHADOW, gen.WALK, gen.PRESSURE} {
+	for _, p := range gen.AllProfiles {
 		if strings.EqualFold(p.Name, n) {
 			return p
 		}
